@@ -5,8 +5,8 @@ Theorems about M-Classes (`DefconModel/Classes.lean`) over the class wiring of t
 `Gen/ClassWiring.lean`, which is REGENERATED from the defcon sources on every run.  The statements
 quantify over every configuration `cfg : Role → Option Nat` (any subset of the 17 roles customised,
 with any classes) and over every chain of creation sites of any length (histories: a contour reversed
-any number of times, …).  `decide` is used only for the two obligations over the complete regenerated
-table (`wiring_certified`, `paths_certified`); everything else is derived from them by the
+any number of times, …).  `decide` is used only for the three obligations over the complete regenerated
+table (`wiring_certified`, `paths_certified`, `props_certified`) and in `example`s; everything else is derived from them by the
 parametricity and coverage lemmas of `Lemmas/Classes.lean`, which hold for every wiring.
 -/
 import DefconModel.Lemmas.Classes
@@ -18,7 +18,7 @@ open DefconModel DefconModel.Classes
 /-- the wiring of the code that exists -/
 abbrev W : Wiring := Gen.ClassWiring.wiring
 
-/-! ## 0. The two obligations over the regenerated table -/
+/-! ## 0. The three obligations over the regenerated table -/
 
 /-- The symbolic closure of the regenerated wiring is a certificate: it contains the symbolic font, is
 closed under every creation site, every site of every symbolic object evaluates to "the registration of
@@ -28,8 +28,8 @@ site is catalogued and `Font.__init__` takes exactly the 17 registration keyword
 theorem wiring_certified : check W (canonObjs W) = true := by decide +kernel
 
 /-- The table of creation paths only names sites of the regenerated wiring that are not hard-coded,
-executed inside reachable objects of the right class; every non-scratch site lies on a path and every
-one of the 17 roles is created on some path. -/
+executed inside reachable objects of the right class; every site that hands out a role lies on a path and
+every one of the 17 roles is created on some path. -/
 theorem paths_certified : pathsOk W (canonObjs W) = true ∧ pathsCover W = true := by decide +kernel
 
 /-- Every class-valued property of the regenerated wiring (`glyph.contourClass`, `glyph.pointClass`, …,
